@@ -1137,6 +1137,7 @@ class Gen(object):
             add(6, lambda: self.g_arith(['add', 'sub', 'mul', 'add', 'sub', 'mul', 'truediv', 'floordiv', 'mod'],
                                         judged=True), 'derive_arith')
             add(2, self.g_reduce, 'derive_reduce')
+            add(2, self.g_unary, 'derive_arith')
             add(1, self.g_like)
             add(1, self.g_deepcopy)
             add(1, self.g_big_store)
